@@ -48,6 +48,15 @@ def run(ctx):
     ok = ok and good
     if good and isinstance(v.args[0], ast.BinOp) and isinstance(v.args[0].right, ast.Constant):
       suffixes.append(v.args[0].right.value)
+    elif good:
+      # any other spelling of <name> + '/<configurable>': '{}/x'.format(name), f'{name}/x', '/'.join([name, 'x'])
+      from ..lib import format_sites
+      for n_, tmpl, ops in format_sites(v.args[0]):
+        if n_ is v.args[0] and tmpl is not None:
+          if len(ops) == 1 and tmpl.startswith('{}'):
+            suffixes.append(tmpl[2:])
+          elif len(ops) == 2 and tmpl == '{}/{}' and isinstance(ops[1], ast.Constant) and isinstance(ops[1].value, str):
+            suffixes.append('/' + ops[1].value)
   ctx.check(ok, 'C05.late', con, '%name becomes a newly constructed *evaluated* reference at every use: the value is looked up at every use, not at parse time',
             '%%name no longer yields a newly constructed evaluated reference per use (returns %s)' % [u(r.value) for r in rets], dm.loc(), instance='evaluated')
   _, acc = store_accesses(prog, 'config', ['_CONFIG'])
